@@ -126,9 +126,34 @@ func init() {
 	}
 }
 
+func init() {
+	executors["cl-sign"] = func(o Op) string {
+		kp := execKey(o.str("key"))
+		ms := unhxs(o["msgs"])
+		sig, err := gabi.SignMessageBlock(kp.sk, kp.pk, ms)
+		if err != nil || sig == nil {
+			return "refused"
+		}
+		if sig.Verify(kp.pk, ms) {
+			return "signed-verifies"
+		}
+		return "signed-but-does-not-verify"
+	}
+}
+
 func genC05(g *Rng, tier string, emit func(Op)) {
 	emit(declKey(fixedKey("k1024a", false)))
 	emit(declSk(fixedKey("k1024a", false)))
+	// the issuer's side: a negative message longer than the message length is not signed at all
+	// (it would be signed as its magnitude's digest), whatever its position; other blocks are
+	for j := 0; j < 3; j++ {
+		ms := []*big.Int{g.bits(100), g.bits(100), g.bits(100)}
+		ms[j] = g.exactBits(257 + g.intn(300))
+		emit(Op{"op": "cl-sign", "class": "sign-oversized", "label": "signed-verifies", "nomodel": true, "key": "k1024a", "msgs": hxs(ms)})
+		neg := append([]*big.Int{}, ms...)
+		neg[j] = new(big.Int).Neg(ms[j])
+		emit(Op{"op": "cl-sign", "class": "sign-negative-oversized", "label": "refused", "nomodel": true, "fkey": "C05/sign-negative-oversized", "key": "k1024a", "msgs": hxs(neg)})
+	}
 	emit(Op{"op": "cl-concurrent", "class": "concurrent-oversized-messages", "label": "ok", "nomodel": true, "fkey": "C05/concurrent-oversized-messages",
 		"key": "k1024a", "goroutines": 8, "bytes": 200000, "rounds": 12, "seed": hx(g.bits(40))})
 	keys := []*KeyPair{fixedKey("k1024a", false), fixedKey("k1024b", false)}
